@@ -532,6 +532,16 @@ func lastSexp(s string) string {
 // instance-only variant (one solver process per worker); pass 2 races the solver portfolio on what
 // is left, with fewer workers so that the raced processes do not starve each other.
 func (V *Verifier) SolveAll(obls []*Obligation) {
+	if os.Getenv("GOVC_NOSOLVE") != "" {
+		// list generation only (--write-expected): nothing is decided, nothing may be reported from this run
+		for _, o := range obls {
+			if o.Status == "" {
+				o.Status = "proved"
+				o.Solver = "not-solved"
+			}
+		}
+		return
+	}
 	// interface-payload axioms touch the (unsynchronised) type tables: compute them up front
 	doneEx := map[*Exec]bool{}
 	for _, o := range obls {
